@@ -1,3 +1,130 @@
 package mc
 
-func tallFamily(c *Ctx, prop string) {}
+import (
+	"fmt"
+	"sync/atomic"
+)
+
+// tallFamily: forests of 16..65 leaves (rows 4..7, positions > 127), where the unstructured BFS
+// cannot go. N leaves are added in one block, then one block deletes a set from a closed
+// structured family and adds k in {0,1,3} leaves, then that block is undone. Exhaustive over the
+// family. The oracle is the one of the calling property.
+func tallFamily(c *Ctx, prop string) {
+	var or HistOracle
+	insts := stdInsts([]uint8{0, 63}, []string{"all"})
+	switch prop {
+	case "C01":
+		or = HistOracle{Roots: true, Prop: prop}
+		insts = stdInsts([]uint8{0, 7, 8, 63}, []string{"all", "none"})
+	case "C02":
+		or = HistOracle{Proofs: true, ProofSets: "tall", Prop: prop}
+	case "C06":
+		or = HistOracle{Roots: true, Proofs: true, Lookups: true, ProofSets: "tall", Prop: prop, OnlyAfter: "undo"}
+		insts = insts[1:]
+	case "C10":
+		or = HistOracle{Lookups: true, Prop: prop}
+	default:
+		return
+	}
+	fam := &HistFamily{Nmax: 128, Insts: insts, Or: or, PermLimit: 2, UndoBud: 1}
+	type run struct{ hist []Op }
+	var runs []run
+	for _, N := range []int{16, 17, 31, 32, 33, 63, 64, 65} {
+		seen := map[string]bool{}
+		var sets [][]int
+		add := func(s []int) {
+			if len(s) == 0 {
+				return
+			}
+			k := fmt.Sprint(s)
+			if !seen[k] {
+				seen[k] = true
+				sets = append(sets, s)
+			}
+		}
+		for i := 0; i < N; i++ {
+			add([]int{i})
+		}
+		for i := 0; i+1 < N; i += 2 {
+			add([]int{i, i + 1})
+		}
+		for i := 0; i < N; i += 7 {
+			for j := i + 7; j < N; j += 7 {
+				add([]int{i, j})
+			}
+		}
+		for h := uint(1); (1 << h) <= N; h++ {
+			for a := 0; a+(1<<h) <= N; a += 1 << h {
+				var s []int
+				for x := a; x < a+(1<<h); x++ {
+					s = append(s, x)
+				}
+				add(s)
+				if len(s) > 2 {
+					add(s[1:])         // all but the first leaf of the subtree
+					add(s[:len(s)-1]) // all but the last
+				}
+			}
+		}
+		lim := N
+		if lim > 32 {
+			lim = 32
+		}
+		for i := 0; i < lim; i++ {
+			for j := i + 1; j < lim; j++ {
+				var s []int
+				for x := 0; x < lim; x++ {
+					if x != i && x != j {
+						s = append(s, x)
+					}
+				}
+				add(s)
+			}
+		}
+		var all []int
+		for x := 0; x < N; x++ {
+			all = append(all, x)
+		}
+		add(all)
+		add(all[1:])
+		for _, s := range sets {
+			for _, k := range []int{0, 1, 3} {
+				runs = append(runs, run{[]Op{{Kind: "block", Adds: N}, {Kind: "block", Dels: s, Adds: k}}})
+			}
+		}
+	}
+	c.Cov.Bound["tall.N"] = "16,17,31,32,33,63,64,65"
+	c.Cov.Bound["tall.runs"] = len(runs)
+	var evals, done int64
+	ok := parallelFor(c, len(runs), func(i int) {
+		h := runs[i].hist
+		for _, hist := range [][]Op{h, append(append([]Op(nil), h...), Op{Kind: "undo"})} {
+			hist := hist
+			if or.OnlyAfter == "undo" && hist[len(hist)-1].Kind != "undo" {
+				continue
+			}
+			x := NewExec(prop, func() Case { return mkCase("hist", histPayload{Fam: *fam, Hist: hist}) })
+			is, md, ok := fam.run(x, hist)
+			if ok {
+				atomic.AddInt64(&evals, fam.observe(x, is, md, true))
+			}
+			x.CheckHeld()
+			c.Col.Add(x.Viol...)
+			for _, n := range x.Notes {
+				c.Col.Note(n)
+			}
+			atomic.AddInt64(&done, 1)
+		}
+		if i%997 == 0 {
+			c.Cov.Sample("tall: " + histStr(h))
+		}
+	})
+	if !ok {
+		c.Cov.NotExhaustive("deadline reached in the tall-forest family")
+	}
+	c.Cov.AddStates(done)
+	c.Cov.AddTransitions(done)
+	c.Cov.AddEvals(evals)
+	c.Cov.AddNontrivial(done)
+	c.Cov.SetExtra("tall_family_runs", done)
+}
